@@ -66,6 +66,9 @@ func init() {
 			p := params(c.Tier)
 			pl := v1x.MakePlan(c.Rng, p)
 			v1x.LazyPrefix(pl, c.Index)
+			if v1x.EmptyKeyVariant(pl, c.Index) {
+				c.Obs("histories_with_the_empty_key", 1)
+			}
 			if c.Index%10 == 9 {
 				pl.Cfg.Backend = "goleveldb"
 			}
